@@ -520,6 +520,15 @@ pure epochOf(k Bytes) Int = b2i(k[3 : len(k) - 42])
 pure estk(cid Bytes, pub Bytes) Bytes = "est" ++ cid ++ ripemd160(pub)
 pure elist(s Store, cid Bytes, pub Bytes) L_Int = deser_L_Int(s.get(estk(cid, pub)))
 
+// the epochs a bookkeeping call keeps of a node's list l: those not older than the delta (all of them if the call only
+// updates), in order. keptLen(l, n, e, u) / keptAt(l, n, e, u, i) describe the list kept of the first n entries.
+ufun keptLen(l L_Int, n Int, e Int, u Bool) Int
+ufun keptAt(l L_Int, n Int, e Int, u Bool, i Int) Int
+axiom keptLen0: forall l L_Int, e Int, u Bool {keptLen(l, 0, e, u)} :: keptLen(l, 0, e, u) == 0
+axiom keptLenS: forall l L_Int, n Int, e Int, u Bool {keptLen(l, n + 1, e, u)} :: n >= 0 ==> keptLen(l, n + 1, e, u) == keptLen(l, n, e, u) + ((u || e - l[n] <= 3) ? 1 : 0)
+axiom keptAtS:  forall l L_Int, n Int, e Int, u Bool, i Int {keptAt(l, n + 1, e, u, i)} :: n >= 0 && 0 <= i && i < keptLen(l, n + 1, e, u)
+                  ==> keptAt(l, n + 1, e, u, i) == (i < keptLen(l, n, e, u) ? keptAt(l, n, e, u, i) : l[n])
+
 // bookkeeping of one node's estimations of one container: removes exactly that node's entries for epochs older than
 // CleanupDelta = 3 (unless the call only updates), records the epoch in the node's list, touches nothing else
 func updateEstimations(ctx, epoch, cid, pub, isUpdate)
@@ -531,7 +540,17 @@ func updateEstimations(ctx, epoch, cid, pub, isUpdate)
   // every listed entry of this node older than the delta is gone
   ensures [C20] !isUpdate && old(store).has(estk(cid, pub)) ==> forall q Int {elist(old(store), cid, pub)[q]} :: 0 <= q && q < len(elist(old(store), cid, pub)) && epoch - elist(old(store), cid, pub)[q] > 3
         ==> !store.has(ekey(elist(old(store), cid, pub)[q], cid, pub))
+  // the node's list afterwards: exactly the epochs kept, in order, followed by this epoch - nothing the node still has
+  // stored falls out of the list, so a later call finds (and cleans) it
+  ensures [C20] store.has(estk(cid, pub))
+  ensures [C20] !old(store).has(estk(cid, pub)) ==> len(elist(store, cid, pub)) == 1 && elist(store, cid, pub)[0] == epoch
+  ensures [C20] old(store).has(estk(cid, pub)) ==> len(elist(store, cid, pub)) == keptLen(elist(old(store), cid, pub), len(elist(old(store), cid, pub)), epoch, isUpdate) + 1
+  ensures [C20] old(store).has(estk(cid, pub)) ==> elist(store, cid, pub)[len(elist(store, cid, pub)) - 1] == epoch
+  ensures [C20] old(store).has(estk(cid, pub)) ==> forall t Int {elist(store, cid, pub)[t]} :: 0 <= t && t < len(elist(store, cid, pub)) - 1
+        ==> elist(store, cid, pub)[t] == keptAt(elist(old(store), cid, pub), len(elist(old(store), cid, pub)), epoch, isUpdate, t)
   loop 0
+    invariant len(newEpochs) == keptLen(epochs, $i, epoch, isUpdate) && $i <= len(epochs)
+    invariant forall t Int {newEpochs[t]} :: 0 <= t && t < len(newEpochs) ==> newEpochs[t] == keptAt(epochs, $i, epoch, isUpdate, t)
     invariant notifs == old(notifs) && epochs == elist(old(store), cid, pub) && h == ripemd160(pub)
     invariant forall k Bytes {store.opt(k)} :: !prefix("cnr", k) ==> store.opt(k) == old(store).opt(k)
     invariant forall k Bytes {store.opt(k)} :: prefix("cnr", k) && store.opt(k) != old(store).opt(k) ==> !store.has(k) && !isUpdate && epoch - epochOf(k) > 3
